@@ -484,6 +484,11 @@ func runC05(c *eng.Ctx) {
 	ruleTruncateShapes(c)
 	c.Floor(8)
 
+	// ---- R01.13 (shared) error gates in the commit log package: recovery does not take a failed step for success
+	c.Rule("R01.13", "K2")
+	ruleErrorGates(c, "server/commitlog")
+	c.Floor(20)
+
 }
 
 // appendedTo: fn stores append(<field>, v) (possibly after conversion) into the field.
